@@ -27,7 +27,7 @@ def search(ctx, N):
         n, m, kk = int(rng.integers(1, 9)), int(rng.integers(1, 7)), int(rng.integers(1, 5))
         method = METHODS[k % len(METHODS)]
         order = int(rng.choice([2, 4]))
-        x = rng.uniform(-1, 1, size=n)
+        x = rng.uniform(-1, 1, size=n) * (10.0 ** rng.uniform(-1, 1.2, size=n) if (k // 4) % 2 else 1.0)   # different magnitudes: different steps per coordinate
         A = rng.normal(size=(m, n))
         b = rng.normal(size=m)
         kind = k % 4
@@ -105,7 +105,8 @@ def run(ctx):
         for m in range(1, 7):
             r = np.arange(n * m).reshape(n, m) + 1000 * int(rng.integers(1, 9))
             try:
-                f_del, h, shape = rule._vstack([r], [np.array([np.ones(m) * (j + 1) for j in range(n)])])
+                hlab = np.arange(n * m).reshape(n, m) * 3 + 5
+                f_del, h, shape = rule._vstack([r], [hlab])
             except Exception as ex:   # noqa
                 ctx.brk('correspondence', 'LogJacobianRule._vstack raised %r for a stencil result of shape (%d, %d)' % (ex, n, m), {'n': n, 'm': m})
                 continue
@@ -113,14 +114,17 @@ def run(ctx):
                 ctx.brk('correspondence', '_vstack reports shape %r for stencil results of shape (%d, %d); expected (%d, %d)' % (shape, n, m, m, n), {'n': n, 'm': m})
             if n * m > 1:
                 c2.append('(%d%%nat, %s, %s)' % (m, zl(r), zl(np.ravel(f_del[0]))))
+                c2.append('(%d%%nat, %s, %s)' % (m, zl(hlab), zl(np.ravel(h[0]))))        # the steps follow the same layout
             ctx.count(1, ('vstack2', n, m))
             for k in range(1, 5):
                 r3 = np.arange(n * m * k).reshape(n, m, k) + 7
-                f_del, h, shape = rule._vstack([r3], [np.ones((n, m, k))])
+                hlab3 = np.arange(n * m * k).reshape(n, m, k) * 2 + 11
+                f_del, h, shape = rule._vstack([r3], [hlab3])
                 if tuple(shape) != (m, n, k) and n * m * k > 1:
                     ctx.brk('correspondence', '_vstack reports shape %r for stencil results of shape (%d, %d, %d)' % (shape, n, m, k), {'n': n, 'm': m, 'k': k})
                 if n * m * k > 1:
                     c3.append('(%d%%nat, %s, %s)' % (m, zl(r3), zl(np.ravel(f_del[0]))))
+                    c3.append('(%d%%nat, %s, %s)' % (m, zl(hlab3), zl(np.ravel(h[0]))))
                 ctx.count(1, ('vstack3', n, m, k))
     items = []
     for s in range(0, len(c2), 100):
